@@ -32,6 +32,13 @@ class Ops:
     def set_expr(self, o, op, expr):
         self.lines.append('S %d %s %s' % (o, op, expr))
 
+    def parse_window(self, o, b, s):
+        """parse under every limit of a window around the sizes involved, then unlimited"""
+        self.lines.append('PW %d %d %s' % (o, b, hx(s)))
+
+    def set_window(self, o, op, v):
+        self.lines.append('SW %d %s %s' % (o, op, hx(v)))
+
     def copy(self, o, src):
         self.lines.append('Y %d %d' % (o, src))
 
